@@ -2,7 +2,7 @@
    Statements only; proofs in Proofs/EstimateSkyProofs.v.  `border`,
    `sky_values`, `sky_count` are built from the slices and the concatenation /
    count flavour REGENERATED from priors.estimate_sky (Gen/EstimateSky.v). *)
-From Coq Require Import ZArith List Bool Lia.
+From Coq Require Import ZArith List Bool Lia Permutation Sorted.
 From PS Require Import Base.PySlice Gen.EstimateSky Model.EstimateSky Proofs.EstimateSkyProofs.
 Import ListNotations.
 Open Scope Z_scope.
@@ -56,6 +56,18 @@ Proof. reflexivity. Qed.
 Example ex_border_6x5 : length (border 6 5 1) = 18%nat /\ sky_count (fun r c => (r =? 0) && (c =? 2)) 6 5 1 = 17.
 Proof. vm_compute. split; reflexivity. Qed.
 
+(* the median depends only on the multiset of gathered values, never on the gathering order of the four slices:
+   any two gatherings of the same unmasked border pixels (in any order) give the same statistic *)
+Theorem C17_median_order_independent : forall l l', Permutation l l' -> median2 l = median2 l'.
+Proof. exact median2_perm. Qed.
+
+Theorem C17_sorted_values_are_the_gathered_multiset : forall l, Permutation (isort l) l /\ LocallySorted Z.le (isort l).
+Proof. intro l. split; [apply isort_perm | apply isort_sorted]. Qed.
+
+(* non-vacuity: two orders of the same five values *)
+Example ex_median_perm : median2 [7; 1; 5; 3; 9] = Some 10 /\ median2 [9; 3; 7; 5; 1] = Some 10.
+Proof. vm_compute. split; reflexivity. Qed.
+
 Print Assumptions C17_border_spec.
 Print Assumptions C17_border_once.
 Print Assumptions C17_border_count.
@@ -64,3 +76,5 @@ Print Assumptions C17_invariant_masked.
 Print Assumptions C17_values_are_unmasked_border.
 Print Assumptions C17_count.
 Print Assumptions C17_mask_argument_honoured.
+Print Assumptions C17_median_order_independent.
+Print Assumptions C17_sorted_values_are_the_gathered_multiset.
